@@ -19,7 +19,7 @@ for f in sorted(glob.glob(HERE + '/evidence/C*.json')):
     c = e['coverage']
     q = "%d / %d / %s / %.0f s" % (c.get('evaluations', 0), c.get('distinct_nontrivial', 0), c.get('states', '-'), e['wall_s'])
     t = thor.get(e['property_id'])
-    ts = "%d / %s / %.0f s%s" % (t['evaluations'], t.get('states', '-'), t['wall_s'], '' if t.get('exhaustive', True) else '') if t else 'see MANIFEST thorough_cmd'
+    ts = "%d / %s / %.0f s%s" % (t['evaluations'], t.get('states') or '-', t['wall_s'], '' if t.get('exhaustive', True) else '') if t else 'see MANIFEST thorough_cmd'
     out.append("| %s | %s | %s | %s |" % (e['property_id'], e['level'], q, ts))
 out += ['', '## 11. Seeded changes vs. checks', '',
         'rc 1 = the quick check of that property reports a VIOLATION with a replay file. Sub-agent changes (`Cxx?`) were written '
